@@ -27,7 +27,10 @@ MAX_DEPTH = 4
 # shape and keep working when a refactoring folds the forwarder into its caller
 ALWAYS_INLINE = ("anemo::network::connection_manager::ConnectionManager::handle_connect_request",
                  "anemo::network::connection_manager::ActivePeersInner::contains",      # = self.connections.contains_key(id)
-                 "anemo::network::connection_manager::ActivePeersInner::len")           # = self.connections.len()
+                 "anemo::network::connection_manager::ActivePeersInner::len",           # = self.connections.len()
+                 "anemo::network::connection_manager::ActivePeers::len",                # = self.inner().len()  (read guard + the above)
+                 "anemo::network::connection_manager::ConnectionManager::handle_incoming",   # = pending_connections.spawn(handle_incoming_task(..))
+                 "anemo::routing::RouteMatcher::at")                                     # = self.inner.at(path)
 WORKSPACE = ("anemo", "anemo_tower", "anemo_build", "anemo_cli", "examples")
 
 
@@ -470,6 +473,13 @@ def _rename_fn(prog, old, new):
         b.raw_path = fix(b.raw_path)
         b.j["path"] = b.path
         prog.bodies[b.path] = b
+        try:
+            # parameters / captures of the re-identified function are presented under their pinned names too
+            from .mir import _canonical_names
+            for pth in {b.raw_path, b.path}:
+                _canonical_names(b, dict(b.j, path=pth))
+        except Exception:
+            pass
     for b in prog.bodies.values():
         b.parent = fix(b.parent)
         for bl in b.blocks:
